@@ -121,6 +121,7 @@ func genCfg(withSync bool) sim.GenConfig {
 		MinOps:      3,
 		Codecs:      crdtCodecs,
 		WithSync:    withSync,
+		LargeOneIn:  ev.Scale(128, 96),
 	}
 }
 
